@@ -162,13 +162,22 @@ func (e *Env) Requests(ctx sdk.Context, cname string) []Request {
 	if !ok {
 		return nil
 	}
-	k := e.C.K.Service
-	rc, found := k.GetRequestContext(ctx, id)
+	rc, found := e.C.K.Service.GetRequestContext(ctx, id)
 	if !found {
 		return nil
 	}
+	return e.RequestsAt(ctx, cname, rc.BatchCounter)
+}
+
+// RequestsAt returns the requests stored for a given batch counter of the context.
+func (e *Env) RequestsAt(ctx sdk.Context, cname string, counter uint64) []Request {
+	id, ok := e.CtxIDs[cname]
+	if !ok {
+		return nil
+	}
+	k := e.C.K.Service
 	var out []Request
-	it := k.RequestsIteratorByReqCtx(ctx, id, rc.BatchCounter)
+	it := k.RequestsIteratorByReqCtx(ctx, id, counter)
 	defer it.Close()
 	for ; it.Valid(); it.Next() {
 		rid := append([]byte{}, it.Key()[1:]...)
